@@ -60,13 +60,22 @@ def charrefMatch (l : PStr) : Option (Nat × Nat) :=
     included) to `handle_data` (html/parser.py:205-209 + 243-248): not a code point. -/
 def RUNAWAY : Nat := 0x110000
 
-/-- The text the tree holds after parsing tag-free `s`. The counter is the number of code points still belonging to
-    the previous token. Assumes the rest of the document after the text holds no `;` (the `&#` bail looks there). -/
-def readText (T : Tbl) : Nat → PStr → PStr
+/-- The text the tree holds after parsing tag-free `s` (the first text of the document).
+
+    `late` — the tokenizer is already in its `close()` pass (`goahead(1)`): bs4 calls `feed()` then `close()`; `feed()`
+    stops (`break`) at the first `&#` that is not a well-formed numeric reference, after handing `&#` to `handle_data`
+    if a `;` occurs later in the document (html/parser.py:205-209); `close()` resumes after it. A **second** such
+    `&#`, or a first one with no later `;`, is met by `close()`, whose `break` is followed by "hand everything up to
+    the end of the document to handle_data" (html/parser.py:243-248): the rest of the text stays raw and the following
+    tags are swallowed (`RUNAWAY`).
+
+    The counter is the number of code points still belonging to the previous token. Assumes the rest of the document
+    after the text holds no `;`. -/
+def readText (T : Tbl) (late : Bool) : Nat → PStr → PStr
   | _, [] => []
-  | k + 1, _ :: cs => readText T k cs
+  | k + 1, _ :: cs => readText T late k cs
   | 0, c :: cs =>
-    if c ≠ 38 then c :: readText T 0 cs else
+    if c ≠ 38 then c :: readText T late 0 cs else
     match cs with
     | [] => [38]
     | d :: ds =>
@@ -74,15 +83,15 @@ def readText (T : Tbl) : Nat → PStr → PStr
         match charrefMatch ds with
         | some (v, len) =>
           let semi := match ds.drop len with | 59 :: _ => 1 | _ => 0
-          charRef T v ++ readText T (1 + len + semi) cs
+          charRef T v ++ readText T late (1 + len + semi) cs
         | none =>
-          if ds.contains 59 then 38 :: 35 :: readText T 1 cs
+          if !late && ds.contains 59 then 38 :: 35 :: readText T true 1 cs
           else 38 :: cs ++ [RUNAWAY]
       else if isAlpha d then
         let n := spanLen isNameChar cs
         let semi := match cs.drop n with | 59 :: _ => 1 | _ => 0
-        entityRef T (cs.take n) ++ readText T (n + semi) cs
-      else 38 :: readText T 0 cs
+        entityRef T (cs.take n) ++ readText T late (n + semi) cs
+      else 38 :: readText T late 0 cs
 
 /-! ## html.unescape -/
 
